@@ -6,6 +6,7 @@ import (
 	"errors"
 	"fmt"
 	"reflect"
+	"strings"
 	"sync"
 	"time"
 
@@ -783,6 +784,44 @@ func runC19(c *Cfg) {
 			r.Violate("C19", "C19:pool-size-nonpositive", fmt.Sprintf("NewWorkerPool(%d): %d tasks in flight at once, %d worker goroutines created; a size <= 0 means exactly one worker", w, o.HighWater, o.PoolGs), pc)
 		}
 	}
+	// ... and behaves like NewWorkerPool(1) in every other respect: what a one-worker pool copes with (a task that
+	// submits follow-up tasks to its own pool, submissions while the worker is busy), a pool of size <= 0 copes with
+	for _, w := range []int{0, -1, -7} {
+		for _, kids := range []int{1, 2} {
+			for _, pre := range []int{0, 3} {
+				pc := &PoolCase{Family: "c19-pool-default-like-one-worker", Workers: w, Tasks: 1, Submitters: 1, Rounds: 2, Gated: true, Policy: "first", NestedSubmit: true, NestedKids: kids, PreTasks: pre}
+				if f := poolTwinFinding(pc); f != "" {
+					if strings.HasPrefix(f, "inconclusive:") {
+						r.Incon(f)
+						continue
+					}
+					r.Violate("C19", "C19:pool-size-nonpositive-unlike-one-worker", f, pc)
+				}
+				r.Eval()
+				r.Count("pool.default_size_twin_cases", 1)
+			}
+		}
+	}
+}
+
+// poolTwinFinding runs the case with its size <= 0 and with size 1 and reports a difference in what was observed.
+func poolTwinFinding(pc *PoolCase) string {
+	one := *pc
+	one.Workers = 1
+	o1, o0 := runPoolCase(&one), runPoolCase(pc)
+	if o1.Incon != "" || o0.Incon != "" {
+		return "inconclusive: " + o1.Incon + o0.Incon
+	}
+	bad := func(o *PoolObs) bool {
+		return o.Deadlock || o.Panic != "" || len(o.NotOnce) > 0 || len(o.WaitEarly) > 0 || len(o.Invisible) > 0 || len(o.Leaked) > 0
+	}
+	if bad(o1) {
+		return "" // the one-worker pool itself does not cope with this case: nothing to compare (C12's business)
+	}
+	if bad(o0) || o0.TasksRun != o1.TasksRun || o0.HighWater != o1.HighWater {
+		return fmt.Sprintf("NewWorkerPool(%d) does not behave like NewWorkerPool(1): with a task that submits %d follow-up task(s) to its own pool the one-worker pool ran %d tasks (deadlock=%v), the pool of size %d ran %d (deadlock=%v, not-once=%v, wait-early=%v)", pc.Workers, maxInt(1, pc.NestedKids), o1.TasksRun, o1.Deadlock, pc.Workers, o0.TasksRun, o0.Deadlock, o0.NotOnce, o0.WaitEarly)
+	}
+	return ""
 }
 
 // canaries: nodes created before any case configures anything; configuring OTHER nodes must never change them
@@ -857,6 +896,13 @@ func replayC19(c *Cfg, spec json.RawMessage) {
 		o := runPoolCase(&pc)
 		b, _ := json.MarshalIndent(o, "", " ")
 		fmt.Println(string(b))
+		if pc.Family == "c19-pool-default-like-one-worker" {
+			if f := poolTwinFinding(&pc); f != "" && !strings.HasPrefix(f, "inconclusive:") {
+				fmt.Println(" * finding:", f)
+				c.Rep.Violate("C19", "C19:pool-size-nonpositive-unlike-one-worker", f, pc)
+			}
+			return
+		}
 		if o.HighWater != 1 || o.PoolGs != 1 {
 			c.Rep.Violate("C19", "C19:pool-size-nonpositive", "pool size <= 0 is not one worker", pc)
 		}
